@@ -29,8 +29,10 @@ def _signature(stderr, rc, hung):
     return "exit-%s" % rc
 
 
-def run_worker(cmd, cases, per_case_timeout=60, env=None, max_restarts=25, cwd=None):
-    """returns a list aligned with `cases`: parsed JSON answers, or {"worker_death": {...}}"""
+def run_worker(cmd, cases, per_case_timeout=60, env=None, max_restarts=25, cwd=None, restart_exit_codes=()):
+    """returns a list aligned with `cases`: parsed JSON answers, or {"worker_death": {...}}.
+    restart_exit_codes: exit statuses with which a worker may leave on purpose right AFTER answering a case (its
+    process state is no longer trustworthy); the next case is then not blamed, a fresh worker simply continues."""
     results = [None] * len(cases)
     nxt = 0
     restarts = 0
@@ -116,6 +118,10 @@ def run_worker(cmd, cases, per_case_timeout=60, env=None, max_restarts=25, cwd=N
         except subprocess.TimeoutExpired:
             rc = None
         te.join(timeout=5)
+        if not hung and got > 0 and rc in restart_exit_codes:
+            nxt += got
+            restarts += 1
+            continue
         stderr = b"".join(err_chunks).decode("utf-8", "replace")
         keep = [l for l in stderr.splitlines() if re.search(r"fatal error|panic:|DATA RACE|origami/|goroutine \d+ \[", l)][:30]
         results[nxt + got] = {"worker_death": {"signature": _signature(stderr, rc, hung), "exit": rc, "hung": hung,
